@@ -615,7 +615,7 @@ def dims_time(ctx: Ctx) -> None:
     rr = [r_ for r_ in body_walk(ba.node) if isinstance(r_, ast.Return)]
     kinds = sorted(ast.unparse(r_.value) for r_ in rr)
     okb = len(rr) == 2 and any(x.endswith(".bpm") for x in kinds)
-    keyb = [b for bs in locals_of(ba).b.values() for b in bs if b.kind == "assign" and isinstance(b.value, ast.Tuple) and len(b.value.elts) == 2]
+    keyb = _search_keys(ctx, ba)
     tagok = len(keyb) == 1 and isinstance(try_ev(ctx, ba, keyb[0].value.elts[1]), EnumVal) and try_ev(ctx, ba, keyb[0].value.elts[1]).name == "BPM"
     ctx.expect("R-TABLE", ba, "bpm_at returns the prior state's BPM, searching with the BPM tag (a change on the asked beat counts)", okb and tagok, str(kinds), f"returns {kinds}", node=ba.node)
     neg = [r_ for r_ in rr if any(pol and isinstance(a_, ast.Compare) and isinstance(a_.ops[0], ast.Lt) and try_ev(ctx, ba, a_.comparators[0]) == 0 for a_, pol in facts(ctx, ba, r_))]
@@ -670,13 +670,31 @@ def dims_beat(ctx: Ctx) -> None:
 # C13 hittable
 
 
+class _Key:
+    def __init__(self, value, node):
+        self.value, self.node = value, node
+
+
+def _search_keys(ctx: Ctx, f: FunctionInfo):
+    """The (what, tag) pairs a lookup searches with: a local bound to a 2-tuple, or the 2-tuple written as the second argument of bisect*()."""
+    out = [_Key(b.value, b.node) for bs in locals_of(f).b.values() for b in bs if b.kind == "assign" and isinstance(b.value, ast.Tuple) and len(b.value.elts) == 2]
+    if out:
+        return out
+    for c in body_walk(f.node):
+        if isinstance(c, ast.Call) and (ast.unparse(c.func).split(".")[-1] in ("bisect", "bisect_left", "bisect_right")) and len(c.args) >= 2:
+            v = inline(c.args[1], f)
+            if isinstance(v, ast.Tuple) and len(v.elts) == 2:
+                out.append(_Key(v, c))
+    return out
+
+
 def hittable_rule(ctx: Ctx) -> None:
     p = ctx.p
     f = p.func(f"{TE}.hittable")
     sn, beat = f.param_names()
     tags = p.enum_members(p.cls(f"{ENG}.EventTag"))
     top = max(tags.values(), key=lambda m: m.value).name
-    keyb = [b for bs in locals_of(f).b.values() for b in bs if b.kind == "assign" and isinstance(b.value, ast.Tuple) and len(b.value.elts) == 2]
+    keyb = _search_keys(ctx, f)
     kb = one(keyb, f"search key in {f.fq}")
     tv = try_ev(ctx, f, kb.value.elts[1])
     ctx.expect("R-TABLE", f, "hittable looks at the whole beat: the search tag is the greatest EventTag", isinstance(tv, EnumVal) and tv.name == top and ast.unparse(kb.value.elts[0]) == beat,
